@@ -575,10 +575,10 @@ def run_interp_case(case):
     from pyvc import ring
     import warnings
     if case["matcls"] == "DenseGeneticMappableMatrix":
-        # the anchored base class itself must at least be constructible
+        # the anchored base class itself must at least be constructible (variant axis is axis 0 for this class)
         cls = _imp("pybrops.popgen.gmap.DenseGeneticMappableMatrix", "DenseGeneticMappableMatrix")
         try:
-            cls(mat=numpy.zeros((2, 3), dtype="int8"), vrnt_chrgrp=numpy.array([1, 1, 2]), vrnt_phypos=numpy.array([1, 2, 3]))
+            cls(mat=numpy.zeros((3, 2), dtype="int8"), vrnt_chrgrp=numpy.array([1, 1, 2]), vrnt_phypos=numpy.array([1, 2, 3]))
         except Exception as e:
             return True, "dgmm-ctor-mask-pow-kwargs", "DenseGeneticMappableMatrix(mat, vrnt_chrgrp, vrnt_phypos) raises %s: %s" % (
                 type(e).__name__, e)
